@@ -46,6 +46,7 @@ type c13Case struct {
 	Redirect string      `json:"redirect,omitempty"` // url: "<status>;<kind>" - the backend answers the handshake with this redirect
 	Then     string      `json:"then,omitempty"`     // url: after the open, the backend drops the websocket ("drop-abrupt" | "drop-graceful") and the client keeps using the session
 	Decline  int         `json:"decline,omitempty"`  // url: the backend answers the first handshake of this open with this status and accepts a second one
+	Origin   string      `json:"origin,omitempty"`   // url: the open request carries this Origin header
 	Cancel   bool        `json:"cancel,omitempty"`   // nonshim: the client cancels the request context while the wrapped handler is running
 	BodyLen  int         `json:"body_len,omitempty"` // nonshim: generate a body of this many bytes from Seed instead of B64
 	Chunked  bool        `json:"chunked,omitempty"`  // nonshim: send the body with Transfer-Encoding: chunked
@@ -244,6 +245,9 @@ func c13URL(c c13Case, h http.Handler, dials *c13Dials, b *shimBackend) c13Resul
 	if c.Decline > 0 {
 		hdr = append(hdr, [2]string{"X-Verif-Decline-First", strconv.Itoa(c.Decline)})
 	}
+	if c.Origin != "" {
+		hdr = append(hdr, [2]string{"Origin", c.Origin})
+	}
 	redirBefore := atomic.LoadInt64(&b.redirects)
 	req, err := shimParse(shimRaw("POST", "/shim/open", c.Host, hdr, body))
 	if err != nil {
@@ -324,6 +328,22 @@ func c13URL(c c13Case, h http.Handler, dials *c13Dials, b *shimBackend) c13Resul
 			}
 			if bc.host != wantHost {
 				res.Violations = append(res.Violations, fmt.Sprintf("C13:host-altered:%s|open with body %s (rewriteHost=%v, client Host %q): the handshake carried Host %q, expected %q", form, show, c.Rewrite, c.Host, bc.host, wantHost))
+			}
+			// no header of the handshake may carry the host written in the body URL
+			if u, err := url.Parse(string(body)); err == nil && len(u.Host) >= 4 && strings.ContainsAny(u.Host, ".:") && u.Host != b.addr && !strings.Contains(c.Host, u.Host) && !strings.Contains(c.Origin, u.Host) {
+				for name, vals := range bc.hdr {
+					if name == "Sec-Websocket-Key" {
+						continue
+					}
+					for _, v := range vals {
+						if strings.Contains(v, u.Host) || (len(u.Hostname()) >= 6 && strings.Contains(v, u.Hostname())) {
+							res.Violations = append(res.Violations, fmt.Sprintf("C13:body-host-in-handshake:%s|open with body %s (Origin sent by the client: %q): the handshake the backend received carries %s: %q, which contains the host of the body URL", name, show, c.Origin, name, v))
+						}
+					}
+				}
+			}
+			if c.Origin != "" && bc.hdr.Get("Origin") != c.Origin {
+				res.Violations = append(res.Violations, fmt.Sprintf("C13:origin-altered:%s|open with body %s and Origin %q: the handshake carried Origin %q", form, show, c.Origin, bc.hdr.Get("Origin")))
 			}
 			if auth := bc.hdr.Get("Authorization"); auth != "" {
 				res.Violations = append(res.Violations, fmt.Sprintf("C13:credentials-forwarded:%s|open with body %s: the handshake carried Authorization %q that the client request did not", form, show, auth))
